@@ -487,6 +487,7 @@ func (e *Exec) runInits(st *State, root *ssa.Package) {
 	}
 	st.Frames = nil
 	st.PC = nil
+	e.initContextGlobals(st)
 }
 
 // ---------------- parent ----------------
